@@ -1,6 +1,7 @@
 package main
 
 import (
+	"runtime/pprof"
 	"flag"
 	"fmt"
 	"os"
@@ -16,6 +17,12 @@ func main() {
 		os.Exit(2)
 	}
 	cmd := os.Args[1]
+	if pf := os.Getenv("GOVC_CPUPROFILE"); pf != "" {
+		if fh, err := os.Create(pf); err == nil {
+			pprof.StartCPUProfile(fh)
+			defer pprof.StopCPUProfile()
+		}
+	}
 	fs := flag.NewFlagSet(cmd, flag.ExitOnError)
 	repo := fs.String("repo", "/repo", "repository working tree")
 	verif := fs.String("verif", "/verif", "verification directory")
@@ -31,7 +38,9 @@ func main() {
 
 	switch cmd {
 	case "verify":
-		os.Exit(cmdVerify(*repo, *verif, *fnRe, *obRe, *timeout, *dump, *verbose, *split))
+		rc := cmdVerify(*repo, *verif, *fnRe, *obRe, *timeout, *dump, *verbose, *split)
+		pprof.StopCPUProfile()
+		os.Exit(rc)
 	case "check":
 		os.Exit(cmdCheck(*repo, *verif, *prop, *tier, *timeout, *verbose))
 	case "baseline":
